@@ -31,15 +31,6 @@ theorem keyTransform_too_deep (segs : List Key) (hlen : 3 < segs.length) (hs : S
     simp [keyTransform, splitSlash_joinSlash segs hne hs, hlen]
   refine ⟨h, ?_, ?_, ?_⟩ <;> intros <;> simp [cfgGet, cfgSet, cfgDel, h, bind, Except.bind]
 
-theorem keyTransform_ok_shape {key : Key} {p : List Key} (h : keyTransform key = .ok p) :
-    p ≠ [] ∧ p.length ≤ 3 := by
-  unfold keyTransform at h
-  simp only [] at h
-  split at h
-  · cases h
-  · cases h
-    exact ⟨splitSlash_ne_nil key, by omega⟩
-
 /-- `cfg[key]` is nested indexing along the levels of `key`, for EVERY key string. -/
 theorem cfgGet_eq_nested (store : Tree) (key : Key) :
     cfgGet store key = (keyTransform key >>= fun p => getPath store p) := by
@@ -249,8 +240,14 @@ theorem roundtrip_get_func (known : Key → Bool) (st : Tree) (a : Assoc) (f : K
     · cases h
   · cases h
 
-/-- Writing a configuration does not change it (the conversion runs on a deep copy). -/
-theorem dump_leaves_config_untouched (c : Cfg) : storeAfterDump c = c.store := rfl
+/-- Writing a configuration converts tuples / arrays in the WRITTEN documents only: the documents hold
+    the yaml-safe image of the options while the live configuration is exactly what it was (the
+    conversion runs on a deep copy; contrast `legacy_dump_mutated_nested`). -/
+theorem dump_leaves_config_untouched (st : Tree) (a : Assoc) :
+    yamlSafeDocs { siftType := st, store := .dict a } =
+      .ok (.cons (.dict (.cons siftTypeKey st .nil)) (.cons (.dict (toSafeA a)) .nil)) ∧
+    storeAfterDump { siftType := st, store := .dict a } = .dict a ∧
+    (plainA a = true → arrayFreeA (toSafeA a) = true) := ⟨rfl, rfl, arrayFreeA_toSafeA a⟩
 
 /-- D14 (pinned code): with the shallow copy, a nested tuple became a list in the LIVE configuration. -/
 theorem legacy_dump_mutated_nested :
